@@ -112,9 +112,9 @@ type Response struct {
 	XMLName             xml.Name   `xml:"DAV: response"`
 	Hrefs               []Href     `xml:"href"`
 	PropStats           []PropStat `xml:"propstat,omitempty"`
-	ResponseDescription string     `xml:"responsedescription,omitempty"`
 	Status              *Status    `xml:"status,omitempty"`
 	Error               *Error     `xml:"error,omitempty"`
+	ResponseDescription string     `xml:"responsedescription,omitempty"`
 	Location            *Location  `xml:"location,omitempty"`
 }
 
@@ -247,8 +247,8 @@ type PropStat struct {
 	XMLName             xml.Name `xml:"DAV: propstat"`
 	Prop                Prop     `xml:"prop"`
 	Status              Status   `xml:"status"`
-	ResponseDescription string   `xml:"responsedescription,omitempty"`
 	Error               *Error   `xml:"error,omitempty"`
+	ResponseDescription string   `xml:"responsedescription,omitempty"`
 }
 
 // https://tools.ietf.org/html/rfc4918#section-14.18
